@@ -472,6 +472,18 @@ fn resize_stream<F: Read + Write + Seek>(
         }
         (dir_entry.start_sector, dir_entry.stream_len)
     };
+    // No file can hold more than MAX_REGULAR_SECTOR sectors; refusing larger
+    // lengths up front also keeps the sector arithmetic below from overflowing.
+    let max_stream_len =
+        consts::MAX_REGULAR_SECTOR as u64
+        * minialloc.version().sector_len() as u64;
+    if new_stream_len > max_stream_len {
+        invalid_input!(
+            "Cannot resize stream to {} bytes (the maximum is {} bytes)",
+            new_stream_len,
+            max_stream_len
+        );
+    }
     let new_start_sector = if old_start_sector == consts::END_OF_CHAIN {
         // Case 1: The stream has no existing chain.  We will allocate a new
         // chain that is all zeroes.  (A damaged file can hold an entry that
